@@ -41,6 +41,8 @@ def run(rep: common.Report, tier: str, seed: int, replay=None) -> int:
                dict(screening=False, adaptive=False, ramp=True, solve_time=0.12),
                dict(screening=False, adaptive=True, ramp=False, solve_time=0.15, four_terminals=True),
                dict(screening=False, adaptive=True, ramp=False, solve_time=0.1, min_points=900, mel=0.5),
+               # progress reported through the logger every few steps (wall-clock readings are taken there), time-dependent field
+               dict(screening=False, adaptive=True, ramp=True, solve_time=0.1, progress_interval=7),
                # two continuations from one in-memory seed solution, with screening (the seed's stored fields are inputs)
                dict(screening=True, adaptive=True, ramp=False, solve_time=0.06, seeded_twice=True)]
     if tier == "thorough":
